@@ -142,18 +142,12 @@ the escape, its raw size, the diagnostics added and a column adjustment. -/
 def escape (s : LexSt) (sz : Nat) (t : Char) (k : Nat) : List Char × Nat × List Diag × Nat :=
   if simpleEscapes.contains t then (['\\', t], sz + k, [], 0)
   else if t == 'x' then
+    -- every hexadecimal digit that follows belongs to the escape (C11 6.4.4.4)
     let sz1 := sz + 1
-    match rawPeek s.rest sz1 2 with
-    | none => (['\\', 'x'], sz1, [mkDiag "NO_HEX_DIGITS" .notice [⟨s.line, s.col + sz1 - 1, some 1, none⟩]], 0)
-    | some pk =>
-      match pk with
-      | [] => (['\\', 'x'], sz1, [], 0)   -- unreachable: rawPeek never returns an empty slice
-      | d0 :: _ =>
-        if !isHexDigit d0 then
-          (['\\', 'x'], sz1, [mkDiag "NO_HEX_DIGITS" .notice [⟨s.line, s.col + sz1 - 1, some 1, none⟩]], 0)
-        else
-          let ds := pk.takeWhile isHexDigit
-          (['\\', 'x'] ++ ds, sz1 + ds.length, [], 0)
+    let ds := takeWhileFrom s.rest sz1 isHexDigit
+    if ds.isEmpty then
+      (['\\', 'x'], sz1, [mkDiag "NO_HEX_DIGITS" .notice [⟨s.line, s.col + sz1 - 1, some 1, none⟩]], 0)
+    else (['\\', 'x'] ++ ds, sz1 + ds.length, [], 0)
   else if isOctal t then
     -- `raw_peek(offset=size)` re-reads from the character after the backslash spelling
     let ds := takeWhileFrom s.rest sz isOctal
@@ -341,16 +335,8 @@ def isP (c : Char) : Bool := c == 'p' || c == 'P'
 /-- `(?:[.\d]+)?` -/
 def tailDec (u : Uni) (l : List Char) : Nat := (l.takeWhile (fun c => c == '.' || u.isD c)).length
 
-/-- `(?:[.[\da-fA-F]]+)?` — a character of the class `[.[\da-fA-F]` followed by one or
-more `]` (this is how `re` reads the pattern produced by `_float_pattern`). -/
-def tailHex (u : Uni) (l : List Char) : Nat :=
-  match l with
-  | c :: tl =>
-    if c == '.' || c == '[' || u.isH c then
-      let n := (tl.takeWhile (· == ']')).length
-      if n == 0 then 0 else 1 + n
-    else 0
-  | [] => 0
+/-- `(?:(?:[.]|[\da-fA-F])+)?` -/
+def tailHex (u : Uni) (l : List Char) : Nat := (l.takeWhile (fun c => c == '.' || u.isH c)).length
 
 def floatSuffix (u : Uni) (l : List Char) : List Char :=
   l.takeWhile (fun c => u.isW c || c == '.')
@@ -421,6 +407,15 @@ def goodExponent (u : Uni) (e : List Char) : Bool :=
       | [] => false)
   | [] => false
 
+/-- `re.match(r"[pP][-+]?\d+", exponent)` -/
+def goodBinExponent (u : Uni) (e : List Char) : Bool :=
+  match e with
+  | c :: tl =>
+    isP c && (match tl with
+      | s :: r => if s == '+' || s == '-' then (match r with | d :: _ => u.isD d | [] => false) else u.isD s
+      | [] => false)
+  | [] => false
+
 inductive FloatRes
   | noMatch                     -- the function returns None
   | tok (m : FloatMatch) (d : Option Diag)
@@ -442,6 +437,8 @@ def floatLogic (u : Uni) (line col : Nat) (src : List Char) : FloatRes :=
     else if m.kind == .hexadecimal && !m.const.contains '.' && m.exp.isEmpty then .noMatch
     else if m.kind == .hexadecimal && !(badhex == ['x'] || badhex == ['X']) then
       .tok m (some (mkDiag "MULTIPLE_X" .error [⟨line, column - m.const.length + 1, some badhex.length, none⟩]))
+    else if m.kind == .hexadecimal && !m.exp.isEmpty && !goodBinExponent u m.exp then
+      .tok m (some (mkDiag "BAD_EXPONENT" .error [⟨line, column, some (m.exp.length + suffix), none⟩]))
     else if m.const.count '.' == 1 && m.suf.count '.' > 0 then
       .tok m (some (mkDiag "MULTIPLE_DOTS" .error [⟨line, column, some (m.exp.length + suffix), none⟩]))
     else if !Generated.floatSuffixes.contains (String.ofList m.suf) then
